@@ -19,6 +19,14 @@ pub struct Stats {
     pub choice_points_max: usize,
     pub alternatives_max: usize,
     pub bound_completed: usize,
+    /// the same schedule gave two different RESULTS: the code under test depends on something other than its
+    /// input and the owned choice (state kept between calls, an unowned source of nondeterminism); the caller
+    /// reports it as a violation of its property (results must not depend on the call history)
+    pub result_diverged: Option<Vec<usize>>,
+    /// executions are not replayable although results agree (the same schedule gave two different traces, or a
+    /// recorded prefix could not be followed: e.g. a cache answers the second call): deviations cannot be
+    /// enumerated for this input; only the schedules visited so far count, and the caller records a cap
+    pub unreplayable: Option<String>,
 }
 
 fn one<T>(f: &dyn Fn() -> T, schedule: &[usize]) -> (Vec<(usize, usize)>, T) {
@@ -30,29 +38,44 @@ fn one<T>(f: &dyn Fn() -> T, schedule: &[usize]) -> (Vec<(usize, usize)>, T) {
 }
 
 /// Runs `f` under every schedule with at most `bound` deviations from "choice 0 everywhere".
-/// Every run is executed twice and must reproduce its trace and result exactly (a
-/// divergence is a machinery error: some nondeterminism is not owned).  `visit` is called
-/// once per schedule.
+/// Every run is executed twice and must reproduce its trace and result exactly; a divergence is never
+/// ignored: different results end the exploration with `result_diverged` (a verdict for the caller), different
+/// traces or a prefix that cannot be followed end it with `unreplayable` (reduced coverage, recorded as a cap).
+/// `visit` is called once per schedule.
 pub fn explore<T: PartialEq + std::fmt::Debug>(bound: usize, f: &dyn Fn() -> T, visit: &mut dyn FnMut(&Run<T>)) -> Stats {
     explore_with(bound, 1, f, visit)
 }
 
 /// like `explore`; the replay-twice determinism check is applied to every `verify_every`-th schedule (1 = all)
 pub fn explore_with<T: PartialEq + std::fmt::Debug>(bound: usize, verify_every: u64, f: &dyn Fn() -> T, visit: &mut dyn FnMut(&Run<T>)) -> Stats {
-    let mut stats = Stats { runs: 0, choice_points_max: 0, alternatives_max: 0, bound_completed: bound };
+    let mut stats = Stats { runs: 0, choice_points_max: 0, alternatives_max: 0, bound_completed: bound, result_diverged: None, unreplayable: None };
     // (prefix, deviations used)
     let mut todo: Vec<(Vec<usize>, usize)> = vec![(vec![], 0)];
     while let Some((prefix, used)) = todo.pop() {
         let (trace, result) = one(f, &prefix);
+        // the first run of every input is always replayed
         if stats.runs % verify_every.max(1) == 0 {
             let (trace2, result2) = one(f, &prefix);
-            assert!(trace == trace2 && result == result2, "G3: the same schedule {:?} gave two different executions: uncontrolled nondeterminism", prefix);
-        }
-        assert!(trace.len() >= prefix.len() || prefix.iter().skip(trace.len()).all(|&c| c == 0), "G3: schedule {:?} is longer than the execution", prefix);
-        for (k, &c) in prefix.iter().enumerate() {
-            if k < trace.len() {
-                assert_eq!(trace[k].1, c, "G3: schedule diverged at point {}", k);
+            if result != result2 {
+                stats.result_diverged = Some(prefix.clone());
+                stats.runs += 1;
+                visit(&Run { schedule: prefix, trace, result });
+                stats.bound_completed = 0;
+                return stats;
             }
+            if trace != trace2 {
+                stats.unreplayable = Some(format!("schedule {:?} gave the same result with two different choice traces ({} and {} points)", prefix, trace.len(), trace2.len()));
+                stats.runs += 1;
+                visit(&Run { schedule: prefix, trace, result });
+                stats.bound_completed = 0;
+                return stats;
+            }
+        }
+        let follows = (trace.len() >= prefix.len() || prefix.iter().skip(trace.len()).all(|&c| c == 0)) && prefix.iter().enumerate().all(|(k, &c)| k >= trace.len() || trace[k].1 == c);
+        if !follows {
+            stats.unreplayable = Some(format!("the recorded prefix {:?} could not be followed (execution made {} choices)", prefix, trace.len()));
+            stats.bound_completed = 0;
+            return stats;
         }
         stats.runs += 1;
         stats.choice_points_max = stats.choice_points_max.max(trace.len());
